@@ -76,6 +76,9 @@ def run(ctx):
                loc='%s:%d' % (upf.module.relpath, addcalls[0].lineno) if addcalls else upf.loc,
                detail=txt(addcalls[0])[:80] if addcalls else '')
         check_get_none_presence(ctx, ctx.program.func(cls + '.__eq__'))
+        from rules.common import check_default_returned
+        for _n in ('get', 'getlist', 'pop', 'poplast'):
+            check_default_returned(ctx, ctx.program, ctx.program.func(cls + '.' + _n), recv=ctx.program.cls(cls))
         # T27: order-of-all-pairs consumers read the pair view
         prog = ctx.program
         cname = cls.split('.')[-1]
